@@ -17,7 +17,7 @@ vars == <<names, existing, users, pfx, sfx, ev>>
 
 CX == [illegal |-> IllegalM, reserved |-> ReservedM, lc |-> <<>>]
 
-WideAffixes == { <<<<>>, <<>>>>, <<<<>>, <<46, 103>>>>, <<<<103, 46>>, <<>>>>, <<<<103, 46>>, <<46, 103>>>> }
+WideAffixes == { <<<<>>, <<>>>>, <<<<>>, <<46, 103>>>>, <<<<103, 46>>, <<>>>> }
 SeqAffixes == { <<<<>>, <<>>>>, <<<<>>, <<46>>>> }
 ReservedCon == { <<99, 111, 110>> }
 ReservedNone == { <<120>> }
